@@ -128,6 +128,8 @@ type RandomOpts struct {
 	AllowArchive bool
 	AllowPause   bool
 	AllowOrphan  bool
+	Lag          bool // created PKO objects stay invisible to cached reads until an EnvSyncCache action
+	TemplateEdits int // budget of ObjectDeployment template edits / pause toggles
 	Race         bool // API mode: third party acts on an object right before the pass's pending write on it
 	Settle       bool // after the walk: fair round-robin until quiescent, then a Quiesced event
 }
@@ -141,6 +143,7 @@ type walker struct {
 	faults  int
 	crashes int
 	envLeft int
+	tmplLeft int
 }
 
 func (wk *walker) startRandomPass() bool {
@@ -246,8 +249,11 @@ func (wk *walker) envAction() {
 			missing = append(missing, k)
 		}
 	}
-	var sets, phases []Key
+	var sets, phases, deps []Key
 	for _, k := range w.Store.Keys() {
+		if k.Group == pkoGroup && k.Kind == "ObjectDeployment" {
+			deps = append(deps, k)
+		}
 		if k.Group == pkoGroup && (k.Kind == "ObjectSet" || k.Kind == "ClusterObjectSet") {
 			sets = append(sets, k)
 		}
@@ -260,6 +266,22 @@ func (wk *walker) envAction() {
 			return Key{}, false
 		}
 		return ks[rng.Intn(len(ks))], true
+	}
+	if wk.opts.Lag && rng.Intn(3) == 0 {
+		w.EnvSyncCache()
+		return
+	}
+	if len(deps) > 0 && wk.tmplLeft > 0 && rng.Intn(5) == 0 {
+		wk.tmplLeft--
+		d := deps[rng.Intn(len(deps))]
+		if wk.opts.AllowPause && rng.Intn(4) == 0 {
+			m := w.Store.Snapshot(d)
+			paused, _ := nestedMap(m, "spec")["paused"].(bool)
+			w.EnvSetPaused(d, !paused)
+		} else {
+			w.EnvSetTemplate(d, rng.Intn(3))
+		}
+		return
 	}
 	// workload status changes are free; everything else is budgeted
 	r := rng.Intn(100)
@@ -346,7 +368,8 @@ func RandomWalk(w *World, sc Scenario, seed int64, o RandomOpts) {
 	w.Reset(fmt.Sprintf("%s/seed=%d", sc.Name, seed))
 	sc.Setup(w)
 	wk := &walker{w: w, rng: rand.New(rand.NewSource(seed)), flight: map[string]*Pass{}, opts: o,
-		faults: o.Faults, crashes: o.Crashes, envLeft: o.EnvBudget}
+		faults: o.Faults, crashes: o.Crashes, envLeft: o.EnvBudget, tmplLeft: o.TemplateEdits}
+	w.Store.LagCreates = o.Lag
 	for i := 0; i < o.Steps; i++ {
 		r := wk.rng.Float64()
 		switch {
@@ -367,6 +390,8 @@ func RandomWalk(w *World, sc Scenario, seed int64, o RandomOpts) {
 	for len(wk.flight) > 0 {
 		wk.stepRandomPass()
 	}
+	w.EnvSyncCache()
+	w.Store.LagCreates = false
 	if o.Settle {
 		w.Settle(40)
 	}
@@ -379,6 +404,7 @@ func (w *World) Settle(maxRounds int) bool {
 	rounds := 0
 	for rounds = 0; rounds < maxRounds && quiet < 2; rounds++ {
 		writes := 0
+		w.EnvSyncCache()
 		before := w.Store.rvSeq
 		for _, r := range w.Reconcilables() {
 			p := w.RunPass(r[0].(string), r[1].(Key))
@@ -549,6 +575,39 @@ func moreScenarios() []Scenario {
 				{Name: "p2", Objects: []*unstructured.Unstructured{ConfigMap("added", "x")}},
 			}, "a1"))
 			rollout(w, "a1", "a2")
+		}},
+		{Name: "deploy", Setup: func(w *World) {
+			w.EnvCreate(NewObjectDeployment("d1", TemplateVariant(0)))
+		}},
+		{Name: "deploy-limit1", Setup: func(w *World) {
+			od := NewObjectDeployment("d1", TemplateVariant(0))
+			l := int32(1)
+			od.Spec.RevisionHistoryLimit = &l
+			w.EnvCreate(od)
+		}},
+		{Name: "deploy-limit0", Setup: func(w *World) {
+			od := NewObjectDeployment("d1", TemplateVariant(0))
+			l := int32(0)
+			od.Spec.RevisionHistoryLimit = &l
+			w.EnvCreate(od)
+		}},
+		{Name: "deploy-rolledout", Setup: func(w *World) {
+			od := NewObjectDeployment("d1", TemplateVariant(0))
+			l := int32(1)
+			od.Spec.RevisionHistoryLimit = &l
+			w.EnvCreate(od)
+			for i := 0; i < 4; i++ {
+				w.RunPass("od", KOD("d1"))
+				for _, k := range w.CRKeys("ObjectSet") {
+					w.RunPass("os", k)
+				}
+				for k := range w.ListedObjects() {
+					if k.Kind == "Widget" {
+						w.EnvSetWidgetStatus(k, "Ready")
+					}
+				}
+			}
+			w.EnvSetTemplate(KOD("d1"), 1)
 		}},
 		{Name: "paused-start", Setup: func(w *World) {
 			os := NewObjectSet("a1", []PhaseSpec{
